@@ -84,7 +84,9 @@ def observe(run, B=None, aborted=False):
         for j, h in enumerate(run.hats):
             exact = float(hat_integral(h, run.a, run.b))
             ok = abs(res[2 + j] - exact) <= 1e-10 * max(1.0, abs(exact))
-            if ok:
+            if ok and not getattr(run, 'modified_basis', False):
+                # (with the modified basis the library's interpolation keeps zero boundary values: linear functions are integrated exactly by the
+                # initial configuration but not interpolated exactly near the boundary, so only the integrals are demanded to stay exact)
                 ref = np.ones(len(XA))
                 for d, (l, i) in enumerate(h):
                     ref = ref * hat1d_vec(l, i, run.a[d], run.b[d], XA[:, d])
@@ -110,7 +112,7 @@ def trace_cfg(run, lmax0):
     sf = Fraction(run.cfg['safety']).limit_denominator(1000)
     return {'D': run.D, 'lmin': run.lmin, 'lmax': lmax0, 'version': run.cfg['version'], 'rebalancing': bool(run.cfg['rebalancing']),
             'boundary': bool(run.boundary), 'mnum': m.numerator, 'mden': m.denominator, 'sfn': sf.numerator, 'sfd': sf.denominator, 'lat': LAT,
-            'hats': [[[l, i] for (l, i) in h] for h in run.hats]}
+            'hats': [] if getattr(run, 'modified_basis', False) else [[[l, i] for (l, i) in h] for h in run.hats]}      # the discrete criterion speaks about hats only
 
 
 # ------------------------------------------------------------------------------------------------ scripted steps
@@ -295,7 +297,7 @@ def random_history(rng, c, steps):
     via = c.get('continue_via') or rng.choice(['resume', 'resume', 'resume', 'resume', 'container', 'mixed'])
     run = DimWiseRun(c['D'], c['lmin'], c['lmax'], version=c['version'], rebalancing=c['rebalancing'], boundary=c['boundary'],
                      safety=c['sfn'] / c['sfd'], margin=c.get('margin'), a=c.get('a'), b=c.get('b'), max_hats=c.get('max_hats'), hat_seed=rng.randint(0, 10 ** 6), int_domain=c.get('int_domain', False),
-                     continue_via=via, extra=c.get('extra'))
+                     continue_via=via, extra=c.get('extra'), modified_basis=c.get('modified', False))
     run.evaluate()
     evs = [observe(run)]
     script = []
